@@ -55,6 +55,12 @@ EDITS = [
  ('verify-gpu-alias', 'C19', 'task_description.py',
   "            self.gpus_per_rank = float(self.gpu_processes)",
   "            self.gpus_per_rank = float(self.gpu_threads)", 'gpu_processes'),
+ ('alloc-no-mark', 'C20', 'raptor/worker_default.py',
+  "                        self._resources['cores'][n] = 1\n", "", '_alloc'),
+ ('alloc-break-late', 'C20', 'raptor/worker_default.py',
+  "                        if len(alloc_cores) == cores:", "                        if len(alloc_cores) > cores:", '_alloc'),
+ ('dealloc-gpu-skip', 'C20', 'raptor/worker_default.py',
+  "                self._resources['gpus'][n] = 0", "                self._resources['gpus'][n] = 1", '_dealloc'),
 ]
 
 
